@@ -422,7 +422,7 @@ def shrink(ctx, case, bad):
 
 
 # ---------------------------------------------------------------- client-side sample
-CL_FILES = ["f1", "f2", "d1/f3"]
+CL_FILES = ["f1", "f2", "d1/f3", "a:b", " sp ace:x "]
 CL_FOLDERS = ["d1", "d2"]
 CL_UNIVERSE = CL_FILES + CL_FOLDERS
 
@@ -612,6 +612,30 @@ def judge_manager(sc, res):
         return None, "harness error " + res["harness_error"]
     if res.get("flags") or any(not st["synced"] for st in res["steps"]):
         return None, "flags %s %s" % (res.get("flags"), res.get("stderr_tail", "")[-200:])
+    # not early: a file with a registered user left may only disappear through a clean-up that is
+    # allowed to remove a non-empty folder (force / allow_non_empty)
+    cnt, prev = {}, set()
+    for st in res["steps"]:
+        ev = st["ev"]
+        now = {tuple(x) for x in st["disk"]["files"]}
+        may_remove_all = False
+        if ev[0] == "reg":
+            cnt[(ev[1], ev[2])] = cnt.get((ev[1], ev[2]), 0) + 1
+        elif ev[0] == "unl" and cnt.get((ev[1], ev[2]), 0) > 0:
+            cnt[(ev[1], ev[2])] -= 1
+        elif ev[0] == "clean":
+            for k in [k for k in prev if k[0] == ev[1]]:
+                if ev[2]:
+                    cnt[k] = 0
+                elif cnt.get(k, 0) > 0:
+                    cnt[k] -= 1
+            may_remove_all = bool(ev[2] or ev[3])
+        if not may_remove_all:
+            gone = sorted(k for k in prev - now if cnt.get(k, 0) > 0)
+            if gone:
+                return ("event %s: file(s) %s disappeared although %s registered user(s) remain" % (
+                    ev, gone, [cnt[k] for k in gone])), None
+        prev = now
     if res["left"]:
         return ("after the client %s and the tracker exited, left on disk: %s" % (
             "was killed" if sc.get("end", "kill") == "kill" else "exited normally", res["left"])), None
